@@ -32,6 +32,7 @@ var allSchedTypes = []string{
 
 func createSchedulers(cl *cluster, oc *schedule.OperatorController, nRegions int, rng *rand.Rand) ([]*schedInst, error) {
 	storage := core.NewStorage(kv.NewMemoryKV())
+	cl.schedStorage = storage
 	var out []*schedInst
 	mk := func(typ string, dec schedule.ConfigDecoder) error {
 		clusterMu.Lock() // CreateScheduler touches process-wide registries
@@ -218,6 +219,7 @@ func schedWorld(s *stats, rng *rand.Rand, nRegions, calls int, scale int) error 
 	if err != nil {
 		return err
 	}
+	cl.insts = insts
 	s.count("sched_worlds", 1)
 	countProps(s, w)
 	s.count("sched_worlds_rules_"+w.Rules, 1)
@@ -252,6 +254,19 @@ func schedWorld(s *stats, rng *rand.Rand, nRegions, calls int, scale int) error 
 			}
 		}
 		cl.disarm()
+		if dynamic && rng.Intn(100) < 2 {
+			// the coordinator-like owner stops and starts again: every scheduler is cleaned up and created anew from
+			// the configuration it persisted (what coordinator.run does with storage.LoadAllScheduleConfig)
+			reloaded, err := reloadSchedulers(cl, oc)
+			if err != nil {
+				s.report(&finding{Key: "scheduler-config-reload-fails", What: fmt.Sprintf("recreating the schedulers from their persisted configuration failed: %v", err), Size: len(w.Stores) * 1000,
+					Witness: map[string]interface{}{"world": w.clone(), "error": err.Error()}})
+				return nil
+			}
+			insts = reloaded
+			w.note("schedulers stopped and recreated from their persisted configuration")
+			s.count("lifecycle_scheduler_reloads", 1)
+		}
 		if dynamic && rng.Intn(100) < 4 {
 			if rng.Intn(3) == 0 {
 				cl.armMidCallRegionChange(rng, s, regions)
@@ -463,4 +478,37 @@ func (c *cluster) armMidCallRegionChange(rng *rand.Rand, s *stats, regions []*co
 			return
 		}
 	})
+}
+
+// reloadSchedulers: Cleanup of every running scheduler, then one new scheduler per persisted configuration.
+func reloadSchedulers(cl *cluster, oc *schedule.OperatorController) ([]*schedInst, error) {
+	names, configs, err := cl.schedStorage.LoadAllScheduleConfig()
+	if err != nil {
+		return nil, err
+	}
+	for _, in := range cl.insts {
+		in.s.Cleanup(cl)
+	}
+	var out []*schedInst
+	for i, name := range names {
+		typ := schedule.FindSchedulerTypeByName(name)
+		if typ == "" {
+			return nil, fmt.Errorf("no scheduler type for persisted name %q", name)
+		}
+		clusterMu.Lock()
+		sch, err := schedule.CreateScheduler(typ, oc, cl.schedStorage, schedule.ConfigJSONDecoder([]byte(configs[i])))
+		clusterMu.Unlock()
+		if err != nil {
+			return nil, fmt.Errorf("CreateScheduler(%s) from %q: %v", typ, configs[i], err)
+		}
+		if err := sch.Prepare(cl); err != nil {
+			return nil, fmt.Errorf("%s.Prepare after reload: %v", typ, err)
+		}
+		out = append(out, &schedInst{typ: typ, s: sch})
+	}
+	if len(out) != len(cl.insts) {
+		return nil, fmt.Errorf("%d schedulers were running, %d configurations were persisted (%v)", len(cl.insts), len(out), names)
+	}
+	cl.insts = out
+	return out, nil
 }
